@@ -10,11 +10,12 @@ import BlockModes.Basic
 namespace Impl
 
 /-- one program step: a call on the current instance, or a pool operation. -/
-inductive POp (op : Type) where
+inductive POp (σ op : Type) where
   | call (o : op)            -- a data call on the current instance
   | clone                    -- `pool.push(current.clone())`
   | use (k : Nat)            -- make instance `k` the current one
   | cloneFrom (k : Nat)      -- `current.clone_from(&pool[k])`
+  | fresh (s : σ)            -- a separately constructed instance (another key, another IV) joins the pool
 
 structure Pool (σ : Type) where
   insts : List σ
@@ -32,14 +33,17 @@ def Pool.cloneFrom (p : Pool σ) (d : σ) (k : Nat) : Pool σ :=
   if k < p.insts.length then p.set (p.insts.getD k d) else p
 
 /-- one step of a program; `d` is the default instance (never used on well-formed programs). -/
-def Pool.step (f : σ → op → obs × σ) (d : σ) (p : Pool σ) : POp op → Option obs × Pool σ
+def Pool.push (p : Pool σ) (s : σ) : Pool σ := { p with insts := p.insts ++ [s] }
+
+def Pool.step (f : σ → op → obs × σ) (d : σ) (p : Pool σ) : POp σ op → Option obs × Pool σ
   | .call o => let r := f (p.get d) o; (some r.1, p.set r.2)
   | .clone => (none, p.clone d)
   | .use k => (none, p.use k)
   | .cloneFrom k => (none, p.cloneFrom d k)
+  | .fresh s => (none, p.push s)
 
 /-- run a program; the observations of the data calls, in program order. -/
-def Pool.run (f : σ → op → obs × σ) (d : σ) : Pool σ → List (POp op) → List obs × Pool σ
+def Pool.run (f : σ → op → obs × σ) (d : σ) : Pool σ → List (POp σ op) → List obs × Pool σ
   | p, [] => ([], p)
   | p, o :: os =>
     let r := Pool.step f d p o
@@ -54,21 +58,31 @@ def runCalls (f : σ → op → obs × σ) : σ → List op → List obs × σ
     let r2 := runCalls f r.2 os
     (r.1 :: r2.1, r2.2)
 
-/-- the *lineage* bookkeeping: the same pool program run on "objects" that merely remember the calls made on
-    them (and on the objects they were cloned from). -/
-def histStep (h : List op) (o : op) : Unit × List op := ((), h ++ [o])
+/-- the *lineage* of an object: the state it (or the object it descends from by cloning) was constructed in, and the calls
+    made on it and on its ancestors up to each cloning moment. -/
+abbrev Lin (σ op : Type) := σ × List op
 
-/-- what a *fresh* instance replaying the lineage `h` and then doing `o` observes. -/
-def replayObs (f : σ → op → obs × σ) (init : σ) (h : List op) (o : op) : obs :=
-  (f (runCalls f init h).2 o).1
+/-- the lineage bookkeeping: the same pool program run on "objects" that merely remember their lineage. -/
+def histStep (l : Lin σ op) (o : op) : Unit × Lin σ op := ((), (l.1, l.2 ++ [o]))
+
+def liftOp : POp σ op → POp (Lin σ op) op
+  | .call o => .call o
+  | .clone => .clone
+  | .use k => .use k
+  | .cloneFrom k => .cloneFrom k
+  | .fresh s => .fresh (s, [])
+
+/-- what a *fresh* instance constructed like the lineage's origin, replaying the lineage's calls and then doing `o`, observes. -/
+def replayObs (f : σ → op → obs × σ) (l : Lin σ op) (o : op) : obs :=
+  (f (runCalls f l.1 l.2).2 o).1
 
 /-- observations predicted from lineages alone. -/
-def Pool.lineageObs (f : σ → op → obs × σ) (init : σ) : Pool (List op) → List (POp op) → List obs
+def Pool.lineageObs (f : σ → op → obs × σ) (init : σ) : Pool (Lin σ op) → List (POp σ op) → List obs
   | _, [] => []
   | hp, o :: os =>
-    let r := Pool.step histStep [] hp o
+    let r := Pool.step histStep (init, []) hp (liftOp o)
     (match o with
-     | .call c => [replayObs f init (hp.get []) c]
+     | .call c => [replayObs f (hp.get (init, [])) c]
      | _ => []) ++ Pool.lineageObs f init r.2 os
 
 end Impl
